@@ -59,7 +59,9 @@ int main(int argc, char **argv) {
         }
         if (!failed) writeFileText(curPath, text);
         if (failed && ++shrinkRuns > shrinkBudget) return;      // bound the shrinking effort: further candidates "pass"
-        CaseResult r = p->run(c, ctx);
+        CaseResult r;
+        try { r = p->run(c, ctx); }
+        catch (const std::exception &e) { r = CaseResult(); r.fail(std::string("exception escaped the property body: ") + e.what()); }
         if (!failed) {
             if (r.v == CaseResult::DISCARD) { ++discards; tags["discard:" + r.msg]++; }
             else {
